@@ -296,3 +296,4 @@ def h_qp(E, shape):
     np = boot.np
     val = items(std.value_at(nxt, rho, np.array(mask, dtype=bool)))
     E.prove(land(*[v == 0.0 for v in val]), "C14.qp_one_step_solves_implicit_euler")
+
